@@ -202,11 +202,13 @@ def check_C16(tier, seed):
 
 def check_C19(tier, seed):
     t0 = time.time()
-    L = 2 if tier == "quick" else 4
-    shapes = ["Two", "NMid", "DrH"] if tier == "quick" else gen.ALL_SHAPES
+    # (debug builds abort on std's UB checks and on double panics: every fatal scenario is re-run alone, so the thorough
+    #  tier is sized by wall time - about 35 000 scenarios per profile - rather than by the full product)
+    L = 2 if tier == "quick" else 3
+    shapes = ["Two", "NMid", "DrH"] if tier == "quick" else ["Two", "Flat4", "Heap", "DrH", "DrN", "PlC", "NFirst", "NMid", "Deep"]
     build_harness("debug"); build_harness("release")
     proof = prove("C19", ["Soa.Props.C19"])
-    scs = gen.desync_scenarios(shapes, L, thin=(tier == "quick"))
+    scs = gen.desync_scenarios(shapes, L, thin=True)
     suites = [run_suite("C19", scs, ["debug", "release"], [mon_c19], "desync", compare_model=False)]
     return finish("C19", tier, seed, t0, "proof", proof, suites, [mon_c19], widen=None,
                   extra_cov={"explanation": "containers of length <= L desynchronised by pop/push/clear of any one leaf array x every safe method x index values, debug and release; debug aborts isolated per scenario"})
